@@ -1,6 +1,6 @@
 import Zc.Model.NameText
 import Zc.GenFacts.NameText
-import Zc.Proofs.Utf8RoundTrip
+import Zc.Proofs.Utf8Scalar
 /-! Lemmas about the text layer of names (`Zc.Model.NameText`): `split`/`join`, per-label UTF-8,
 `write_name`'s label list versus `_read_name`'s text.  Core Lean only. -/
 namespace Zc.NameText
@@ -68,6 +68,29 @@ theorem splitOn_mem_no_sep : ∀ (s : List α) (l : List α), l ∈ splitOn sep 
           · exact hc h.symm
           · exact this h
         · exact ih l (by rw [hr]; exact List.mem_cons_of_mem _ hl)
+
+/-- the pieces are made of elements of the input -/
+theorem splitOn_mem_sub : ∀ (s : List α) (l : List α), l ∈ splitOn sep s → ∀ x ∈ l, x ∈ s := by
+  intro s
+  induction s with
+  | nil => intro l hl x hx; simp [splitOn] at hl; subst hl; simp at hx
+  | cons c r ih =>
+    intro l hl x hx
+    cases hr : splitOn sep r with
+    | nil => exact absurd hr (splitOn_ne_nil sep r)
+    | cons p ps =>
+      by_cases hc : c = sep
+      · subst hc
+        rw [splitOn_cons_sep, hr] at hl
+        rcases List.mem_cons.mp hl with rfl | hl
+        · simp at hx
+        · exact List.mem_cons_of_mem _ (ih l (by rw [hr]; exact hl) x hx)
+      · rw [splitOn_cons_ne sep hc hr] at hl
+        rcases List.mem_cons.mp hl with rfl | hl
+        · rcases List.mem_cons.mp hx with rfl | hx
+          · exact List.mem_cons_self
+          · exact List.mem_cons_of_mem _ (ih p (by rw [hr]; exact List.mem_cons_self) x hx)
+        · exact List.mem_cons_of_mem _ (ih l (by rw [hr]; exact List.mem_cons_of_mem _ hl) x hx)
 
 theorem splitOn_of_no_sep (l : List α) (h : sep ∉ l) : splitOn sep l = [l] := by
   induction l with
@@ -219,5 +242,192 @@ theorem canonical_of_not_endsWithDot {s : Text} (h : endsWithDot s = false) : ca
 theorem stripTrailingDot_canonical (s : Text) : stripTrailingDot (canonical s) = stripTrailingDot s := by
   unfold canonical
   rw [stripTrailingDot_append_dot]
+
+/-! ## characters and code points, `encode` / `decode` per label -/
+
+theorem isScalar_iff_valid (n : Nat) : Utf8.IsScalar n ↔ n.isValidChar := by
+  unfold Utf8.IsScalar Nat.isValidChar; omega
+
+/-- a `Char` is a Unicode scalar value -/
+theorem toNat_scalar (c : Char) : Utf8.IsScalar c.toNat := (isScalar_iff_valid _).mpr c.valid
+
+theorem toNat_ofNat {n : Nat} (h : Utf8.IsScalar n) : (Char.ofNat n).toNat = n := by
+  have hv := (isScalar_iff_valid n).mp h
+  simp [Char.ofNat, hv, Char.ofNatAux, Char.toNat]
+
+theorem map_toNat_map_ofNat : ∀ {cps : List Nat}, (∀ c ∈ cps, Utf8.IsScalar c) → (cps.map Char.ofNat).map Char.toNat = cps := by
+  intro cps
+  induction cps with
+  | nil => intro _; rfl
+  | cons c r ih =>
+    intro h
+    simp only [List.map_cons]
+    rw [toNat_ofNat (h c List.mem_cons_self), ih (fun x hx => h x (List.mem_cons_of_mem _ hx))]
+
+theorem map_ofNat_map_toNat (s : Text) : (s.map Char.toNat).map Char.ofNat = s := by
+  induction s with
+  | nil => rfl
+  | cons c r ih => simp only [List.map_cons, Char.ofNat_toNat, ih]
+
+theorem text_scalar (s : Text) : ∀ c ∈ s.map Char.toNat, Utf8.IsScalar c := by
+  intro c hc
+  obtain ⟨x, _, rfl⟩ := List.mem_map.mp hc
+  exact toNat_scalar x
+
+/-- **`s.encode('utf-8').decode('utf-8', 'replace') == s`** for every `str` without lone surrogates -/
+theorem decodeLabel_encodeText (s : Text) : decodeLabel (encodeText s) = s := by
+  unfold decodeLabel encodeText
+  rw [Utf8.decode_encode _ (text_scalar s)]
+  exact map_ofNat_map_toNat s
+
+theorem encodeText_injective {a b : Text} (h : encodeText a = encodeText b) : a = b := by
+  have := congrArg decodeLabel h
+  rwa [decodeLabel_encodeText, decodeLabel_encodeText] at this
+
+/-- what `encode` makes of a decoded label is the encoding of its code points (they are scalar values) -/
+theorem toNat_decodeLabel (l : Label) : (decodeLabel l).map Char.toNat = Utf8.decodeReplace l :=
+  map_toNat_map_ofNat (Utf8.decodeReplace_scalar l)
+
+/-- every encoded `str` is text in the sense of C01 / C02 (`Utf8.IsText`) -/
+theorem encodeText_isText (s : Text) : Utf8.IsText (encodeText s) := ⟨s.map Char.toNat, text_scalar s, rfl⟩
+
+theorem encodeText_nil : encodeText [] = [] := rfl
+
+theorem encodeText_append (a b : Text) : encodeText (a ++ b) = encodeText a ++ encodeText b := by
+  simp [encodeText, Utf8.encode]
+
+theorem utf8Len_append (a b : Text) : utf8Len (a ++ b) = utf8Len a + utf8Len b := by
+  simp [utf8Len, encodeText_append]
+
+theorem utf8Len_dot : utf8Len [dot] = 1 := by decide
+
+theorem utf8Len_cons_dot (b : Text) : utf8Len (dot :: b) = 1 + utf8Len b := by
+  have := utf8Len_append [dot] b
+  rw [utf8Len_dot] at this
+  exact this
+
+/-- bytes of a join: every piece plus one byte per dot -/
+theorem utf8Len_joinDot : ∀ (ls : List Text), ls ≠ [] → utf8Len (joinDot ls) + 1 = (ls.map (fun l => utf8Len l + 1)).sum := by
+  intro ls
+  induction ls with
+  | nil => intro h; exact absurd rfl h
+  | cons l rest ih =>
+    intro _
+    cases rest with
+    | nil => simp [joinDot, joinWith]
+    | cons l' ls' =>
+      unfold joinDot at ih ⊢
+      rw [joinWith_cons dot l (by simp), utf8Len_append, utf8Len_cons_dot]
+      have := ih (by simp)
+      simp only [List.map_cons, List.sum_cons] at this ⊢
+      omega
+
+theorem charCount_eq (l : Label) : Utf8.charCount l = (decodeLabel l).length := by
+  simp [Utf8.charCount, decodeLabel]
+
+theorem map_decode_map_encode (ls : List Text) : (ls.map encodeText).map decodeLabel = ls := by
+  induction ls with
+  | nil => rfl
+  | cons l r ih => simp only [List.map_cons, decodeLabel_encodeText, ih]
+
+/-! ## `write_name`'s labels against `_read_name`'s text -/
+
+/-- **Text-level round trip of one name**, for *every* `str` (empty labels, no trailing dot, dots anywhere):
+splitting and encoding it as `write_name` does, then decoding each label with `'replace'` and joining as
+`_read_name` does, gives the name back — with exactly one trailing dot (`canonical`). -/
+theorem textOfLabels_labelsOfText (s : Text) : textOfLabels (labelsOfText s) = canonical s := by
+  unfold textOfLabels labelsOfText canonical
+  rw [map_decode_map_encode, joinDot_splitDot]
+
+/-- for a fully-qualified name (trailing dot) the string itself comes back -/
+theorem textOfLabels_labelsOfText_fq {s : Text} (h : endsWithDot s = true) : textOfLabels (labelsOfText s) = s := by
+  rw [textOfLabels_labelsOfText, canonical_of_endsWithDot h]
+
+/-- **`len(name)` of the decoded name is the model's `nameLen`**: the quantity `_read_name` compares with
+`MAX_NAME_LENGTH` (and the 253 of C02's statement) is a number of characters of the joined text -/
+theorem textOfLabels_length (n : WName) : (textOfLabels n).length = nameLen n := by
+  unfold textOfLabels nameLen
+  cases n with
+  | nil => rfl
+  | cons l rest =>
+    have h := length_joinWith dot ((l :: rest).map decodeLabel) (by simp)
+    simp only [List.length_append, List.length_singleton, List.isEmpty_cons, Bool.false_eq_true, if_false]
+    unfold joinDot
+    rw [h, List.map_map]
+    congr 1
+    apply List.map_congr_left
+    intro x _
+    simp [charCount_eq]
+
+theorem char_ofNat_dot : Char.ofNat 0x2E = dot := by decide
+
+theorem char_ofNat_eq_dot (c : Nat) : Char.ofNat c = Char.ofNat 0x2E ↔ c = 0x2E := by
+  constructor
+  · intro h
+    by_cases hv : Utf8.IsScalar c
+    · have := congrArg Char.toNat h
+      rwa [toNat_ofNat hv, toNat_ofNat (by decide)] at this
+    · exfalso
+      have hv' : ¬ c.isValidChar := fun e => hv ((isScalar_iff_valid c).mpr e)
+      have h0 : (Char.ofNat c).toNat = 0 := by simp [Char.ofNat, hv', Char.toNat]
+      have := congrArg Char.toNat h
+      rw [h0, toNat_ofNat (by decide)] at this
+      omega
+  · rintro rfl; rfl
+
+/-- splitting decoded text at `'.'` is splitting its code points at U+002E -/
+theorem splitDot_decodeLabel (l : Label) :
+    splitDot (decodeLabel l) = (splitOn 0x2E (Utf8.decodeReplace l)).map (List.map Char.ofNat) := by
+  unfold splitDot decodeLabel
+  rw [← char_ofNat_dot]
+  exact splitOn_map 0x2E Char.ofNat char_ofNat_eq_dot _
+
+/-- the labels `write_name` writes for the text of one decoded label: its code points split at U+002E, each piece encoded -/
+theorem pieces_decodeLabel (l : Label) :
+    (splitDot (decodeLabel l)).map encodeText = (splitOn 0x2E (Utf8.decodeReplace l)).map Utf8.encode := by
+  rw [splitDot_decodeLabel, List.map_map]
+  apply List.map_congr_left
+  intro p hp
+  simp only [Function.comp, encodeText]
+  rw [map_toNat_map_ofNat]
+  intro c hc
+  exact Utf8.decodeReplace_scalar l c (splitOn_mem_sub 0x2E _ p hp c hc)
+
+theorem flatMap_congr' {α β : Type} {f g : α → List β} : ∀ {l : List α}, (∀ x ∈ l, f x = g x) → l.flatMap f = l.flatMap g := by
+  intro l
+  induction l with
+  | nil => intro _; rfl
+  | cons a r ih =>
+    intro h
+    rw [List.flatMap_cons, List.flatMap_cons, h a List.mem_cons_self, ih (fun x hx => h x (List.mem_cons_of_mem _ hx))]
+
+/-- **what `write_name` makes of a name `_read_name` returned**: the root name becomes the one empty label
+`['']`; otherwise every wire label is decoded, split at its dots, and the pieces are encoded — so a wire
+label containing `2e` comes back as several labels, and bytes that were not UTF-8 come back as `ef bf bd`. -/
+theorem labelsOfText_textOfLabels (n : WName) :
+    labelsOfText (textOfLabels n) =
+      if n.isEmpty then [[]] else n.flatMap (fun l => (splitOn 0x2E (Utf8.decodeReplace l)).map Utf8.encode) := by
+  unfold labelsOfText textOfLabels
+  rw [stripTrailingDot_append_dot]
+  cases n with
+  | nil => rfl
+  | cons l rest =>
+    simp only [List.isEmpty_cons, Bool.false_eq_true, if_false]
+    unfold joinDot splitDot
+    rw [splitOn_joinWith_flatMap dot _ (by simp), List.flatMap_map, List.map_flatMap]
+    exact flatMap_congr' (fun x _ => pieces_decodeLabel x)
+
+/-- decode side, the unambiguous case: labels that are text and whose text has no dot are recovered exactly -/
+theorem labelsOfText_textOfLabels_of_text (n : WName) (hne : n ≠ [])
+    (h : ∀ l ∈ n, Utf8.IsText l ∧ dot ∉ decodeLabel l) : labelsOfText (textOfLabels n) = n := by
+  unfold labelsOfText textOfLabels
+  rw [stripTrailingDot_append_dot, splitDot_joinDot _ (by simpa using hne)
+    (by intro x hx; obtain ⟨l, hl, rfl⟩ := List.mem_map.mp hx; exact (h l hl).2), List.map_map]
+  conv => rhs; rw [← List.map_id n]
+  apply List.map_congr_left
+  intro l hl
+  obtain ⟨⟨cps, hs, rfl⟩, _⟩ := h l hl
+  simp only [Function.comp, id, encodeText, decodeLabel]
+  rw [Utf8.decode_encode _ hs, map_toNat_map_ofNat hs]
 
 end Zc.NameText
